@@ -3,6 +3,7 @@
 Script (see coq/Gate/Model.v `run`, harness/src/bin/gates.rs):
   nmod L (owner size){L/2} op*
   op = 1 a b l  a.connect(b, channel)   l = 0: no channel, else latency l-1 ns (bitrate 0, jitter 0)
+     | 9 a b l br  as 1 with bitrate br bit/s (read as 0 unless 576e9/br is a whole number of ns; messages are 72 bytes)
      | 2 g kind | 3 g next_gate | 4 g path_end | 5 g path_iter
      | 6 g t d  at time t the owner of gate g calls send_at(msg, g, t+d)
      | 7 g g' d forwarding rule: the module receiving a message through gate g sends THE RECEIVED object on g' after d ns
@@ -19,8 +20,8 @@ THEOREMS = ["C08_invariant_reachable", "C08_sym", "C08_fill_order", "C08_degree_
             "C08_script_deliveries"]
 QUICK_N = 6000; THOROUGH_N = 150000
 CLAIM = dict(
-    text="Machine-checked (Coq 8.16, axiom-free) for EVERY gate declaration and EVERY sequence of connect calls (any order, orientation, channels, duplicates, rejected calls) on a function-by-function model of gate.rs connect/next_hop/PathIter, events.rs handle_with_sink and ctx.rs buf_send_at: the slot tables stay symmetric (g.slot i = (h,j) implies h.slot j = (g,i), same channel), slot 1 is used only after slot 0, a gate has at most two distinct peers, established connections are never overwritten and a third peer is rejected in either orientation; a.connect(b) and b.connect(a) yield the same table and a repeated connect is a no-op; the walk from any non-transit gate terminates within fuel 2*|gates|+1 (injective step + no predecessor of the start state, pigeonhole); path_iter from the far end is the exact mirror image (gates and channels reversed); a message sent on a non-transit gate yields exactly one delivery, to the owner of the far-end gate, at send time + sum of the per-hop channel latencies, with header sender/receiver/last_gate as specified (for ANY header the message object carried before: the sender is the module that performed this send), and the same total delay in the opposite direction; for a relayed message object (echoed back or forwarded onto another chain by the receiving module, up to a hop budget) every leg's header names that leg's sender and receiver. The model is tied to the des crate by differential runs (extracted model vs real Sim/Gate/Channel/send_at on generated scripts: chains of 1..12 hops over 1..6 modules and clusters, all permutations x orientations for <= 5 hops in the thorough tier, immediate/delayed sends, both directions, forwarding rules that re-send the received Message object) plus an independent monitor that states C08 on the implementation's output alone.",
-    note="Trusted: Coq kernel; extraction (ExtrOcamlBasic only) cross-checked in-Coq by vm_compute on a sample each run; harness/generator quality bounds the tie to the code. Channels are latency-only (bitrate 0, jitter 0) so a hop delay is exactly its latency; busy/queueing channels are C07, inactive owners C09. Observed and modelled, outside the property text: the full-gate assert of connect fires while both gate mutexes are held, so a caught third-peer panic poisons both gates (every later kind/path_iter/connect on them panics, and connect(x, poisoned) poisons x as well).",
+    text="Machine-checked (Coq 8.16, axiom-free) for EVERY gate declaration and EVERY sequence of connect calls (any order, orientation, channels, duplicates, rejected calls) on a function-by-function model of gate.rs connect/next_hop/PathIter, events.rs handle_with_sink and ctx.rs buf_send_at: the slot tables stay symmetric (g.slot i = (h,j) implies h.slot j = (g,i), same channel), slot 1 is used only after slot 0, a gate has at most two distinct peers, established connections are never overwritten and a third peer is rejected in either orientation; a.connect(b) and b.connect(a) yield the same table and a repeated connect is a no-op; the walk from any non-transit gate terminates within fuel 2*|gates|+1 (injective step + no predecessor of the start state, pigeonhole); path_iter from the far end is the exact mirror image (gates and channels reversed); a message sent on a non-transit gate yields exactly one delivery, to the owner of the far-end gate, at send time + sum over the hops of (transmission time of the message at the hop's bitrate + latency), with header sender/receiver/last_gate as specified (for ANY header the message object carried before: the sender is the module that performed this send), and the same total delay in the opposite direction; for a relayed message object (echoed back or forwarded onto another chain by the receiving module, up to a hop budget) every leg's header names that leg's sender and receiver. The model is tied to the des crate by differential runs (extracted model vs real Sim/Gate/Channel/send_at on generated scripts: chains of 1..12 hops over 1..6 modules and clusters, all permutations x orientations for <= 5 hops in the thorough tier, hops with latency and/or bitrate, immediate/delayed sends, both directions also simultaneously, forwarding rules that re-send the received Message object) plus an independent monitor that states C08 on the implementation's output alone.",
+    note="Trusted: Coq kernel; extraction (ExtrOcamlBasic only) cross-checked in-Coq by vm_compute on a sample each run; harness/generator quality bounds the tie to the code. Channels have jitter 0 and bitrates whose transmission time for the 72-byte message is a whole number of ns; the per-hop delay is that of an idle channel: each direction of a hop has its own Channel instance (checked: simultaneous opposite-direction traffic), and the statement covers runs where the traffic of one direction of a hop does not overlap in time (a message meeting a busy channel is C07's subject); inactive owners are C09. Observed and modelled, outside the property text: the full-gate assert of connect fires while both gate mutexes are held, so a caught third-peer panic poisons both gates (every later kind/path_iter/connect on them panics, and connect(x, poisoned) poisons x as well).",
     technique="Coq invariant proof over all connect sequences (Sym/Fill/NoSelf/Distinct), NoDup pigeonhole termination, path reversal lemma + differential correspondence check",
     design="6/C08")
 RULE = ("scripts declare 1..6 modules and gate groups (single gates and clusters), then issue the connect calls of 1..4 chains"
@@ -29,15 +30,40 @@ RULE = ("scripts declare 1..6 modules and gate groups (single gates and clusters
         " kind/next_gate/path_end/path_iter are queried between and after the connects, messages are sent from both ends of"
         " every chain (from at_sim_start, immediately and delayed); in ~30 % of the scripts modules carry forwarding rules"
         " (the received Message object is echoed back or forwarded onto another chain, immediately or delayed, up to a hop"
-        " budget) and every leg's header is checked; non-trivial = distinct script that hits at least three"
+        " budget) and every leg's header is checked; in ~30 % of the scripts hops have a bitrate (idle-hop delay = tx(72 bytes)"
+        " + latency, tx an exact number of ns, latency 0 included) with simultaneous sends from both ends and the traffic of"
+        " one direction spaced so that no message meets a busy channel; non-trivial = distinct script that hits at least three"
         " targeted mechanisms and delivers a message over, or enumerates, a path of at least two hops")
-TRUSTED = ["channels are latency-only (bitrate 0, jitter 0): per-hop delay = latency exactly; busy/queueing channels are C07's subject",
+TRUSTED = ["channels have jitter 0 and bitrates for which tx(72 bytes) is a whole number of ns; per-hop delay = tx + latency of an IDLE channel: scripts keep the traffic of one direction of a hop non-overlapping (busy/drop/queueing channels are C07's subject); the two directions of a hop overlap freely (one Channel instance per direction)",
            "all modules stay active (no shutdown during the run; the inactive-owner drop in handle_with_sink is C09's subject)",
            "event-queue interleaving of several messages is not modelled: with never-busy channels messages do not interact",
            "std::sync::Mutex poisoning of gate locks is modelled only as far as it is observable through catch_unwind"]
 ASSUMPTIONS = ["times and latencies fit in 62 bits; at most 65535 sends per script (MessageId is u16)"]
 
 LATS = [0, 1, 7, 1000, 2500000, 1000000000]
+MSG_BITS = 576            # every message: 64 bytes header + u64 content
+# bitrates for which 576e9/bitrate is a whole number of ns (so Duration::from_secs_f64(len*8/bitrate) is exact)
+BITRATES = [576 * 10 ** 9, 288 * 10 ** 9, 72 * 10 ** 9, 10 ** 9, 576 * 10 ** 6, 576000, 576, 9 * 10 ** 9, 8]
+
+
+def norm_br(br):
+    return br if br and (MSG_BITS * 10 ** 9) % br == 0 else 0
+
+
+def tx_ns(br):
+    return MSG_BITS * 10 ** 9 // br if br else 0
+
+
+def hop_delay(ch):
+    """delay of an idle hop: transmission time + latency; ch = None | (latency, bitrate)"""
+    return 0 if ch is None else tx_ns(ch[1]) + ch[0]
+
+
+def chan_of(o):
+    """channel argument of a connect op"""
+    if o[3] == 0:
+        return None
+    return (o[3] - 1, norm_br(o[4]) if o[0] == 9 else 0)
 
 
 # ----------------------------------------------------------------------------- structure
@@ -48,7 +74,7 @@ def split(script):
     hdr = script[:2 + L]
     ops, i = [], 2 + L
     while i < len(script):
-        k = {1: 4, 2: 2, 3: 2, 4: 2, 5: 2, 6: 4, 7: 4, 8: 5}.get(script[i])
+        k = {1: 4, 2: 2, 3: 2, 4: 2, 5: 2, 6: 4, 7: 4, 8: 5, 9: 5}.get(script[i])
         if k is None or i + k > len(script):
             break
         ops.append(script[i:i + k]); i += k
@@ -90,8 +116,10 @@ def pretty(script):
                                             ",".join("g%d@m%d" % (i, o) for i, o in enumerate(own)))
     parts = []
     for o in ops:
-        if o[0] == 1:
-            parts.append("g%d.connect(g%d%s)" % (o[1], o[2], "" if o[3] == 0 else ",lat=%dns" % (o[3] - 1)))
+        if o[0] in (1, 9):
+            br = norm_br(o[4]) if o[0] == 9 else 0
+            parts.append("g%d.connect(g%d%s)" % (o[1], o[2], "" if o[3] == 0 else ",lat=%dns%s" % (
+                o[3] - 1, ",bitrate=%d(tx=%dns)" % (br, tx_ns(br)) if br else "")))
         elif o[0] == 6:
             parts.append("send(g%d,at=%d,delay=%d)" % (o[1], o[2], o[3]))
         elif o[0] == 8:
@@ -108,7 +136,7 @@ class Graph:
     """Undirected gate graph as the property describes it: at most two peers per gate,
     an edge carries the channel of the connect call that created it.  No slots."""
     def __init__(self, n):
-        self.adj = [[] for _ in range(n)]   # list of (peer, lat or None)
+        self.adj = [[] for _ in range(n)]   # list of (peer, channel); channel = None | (latency, bitrate)
 
     def peers(self, g):
         return [p for p, _ in self.adj[g]]
@@ -120,7 +148,7 @@ class Graph:
         self.adj[a].append((b, lat)); self.adj[b].append((a, lat))
 
     def path(self, g):
-        """hops [(gate, lat)] from a non-transit gate g to the far end"""
+        """hops [(gate, channel)] from a non-transit gate g to the far end"""
         out, prev, cur = [], None, g
         seen = {g}
         while True:
@@ -159,7 +187,7 @@ def records(script, out):
             else:
                 if i + 2 >= len(out):
                     raise ValueError("truncated path_iter record")
-                ln = 3 + 2 * out[i + 2]
+                ln = 3 + 3 * out[i + 2]
         else:
             ln = {1: 1, 2: 2, 3: 2, 4: 2, 6: 1, 7: 1, 8: 1, 9: 2, 14: 1}.get(tag)
         if ln is None or i + ln > len(out):
@@ -186,20 +214,79 @@ def parse_tail(tail):
 
 def itinerary(G, own, rules, g, t, d, b):
     """The legs the property prescribes for one message: [(leg, gate sent on, sending module, send time,
-    None | (receiving module, arrival, far gate))]; None = send on a transit gate (documented panic)."""
+    None | (receiving module, arrival, far gate), hops)]; None = send on a transit gate (documented panic);
+    hops = [(from gate, to gate, time the hop is entered, tx)] for the hops that have a channel."""
     out, cur, gate, when = [], own[g], g, t + d
     for leg in range(b + 1):
         if G.deg(gate) == 2:
-            out.append((leg, gate, cur, when, None)); break
+            out.append((leg, gate, cur, when, None, [])); break
         p = G.path(gate)
         far = p[-1][0] if p else gate
-        arrive = when + sum(l for _, l in p if l is not None)
-        out.append((leg, gate, cur, when, (own[far], arrive, far)))
+        now, prev, hops = when, gate, []
+        for h, ch in p:
+            if ch is not None:
+                hops.append((prev, h, now, tx_ns(ch[1])))
+            now += hop_delay(ch); prev = h
+        out.append((leg, gate, cur, when, (own[far], now, far), hops))
         r = rules.get(far)
         if r is None:
             break
-        cur, gate, when = own[far], r[0], arrive + r[1]
+        cur, gate, when = own[far], r[0], now + r[1]
     return out
+
+
+def traffic(G, own, rules, sends):
+    """per directed hop: the sorted list of (enter time, tx) of all traversals by all legs of all messages"""
+    occ = {}
+    for (g, t, d, b) in sends:
+        for _, _, _, _, _, hops in itinerary(G, own, rules, g, t, d, b):
+            for x, y, enter, tx in hops:
+                occ.setdefault((x, y), []).append((enter, tx))
+    for v in occ.values():
+        v.sort()
+    return occ
+
+
+def same_direction_overlap(occ):
+    """True when some message would meet a busy channel: two traversals of the same hop in the same direction
+    closer than the transmission time (busy / drop / queue: C07's subject, outside C08's statement)"""
+    for v in occ.values():
+        for (e1, t1), (e2, _) in zip(v, v[1:]):
+            if t1 > 0 and e2 <= e1 + t1:
+                return True
+    return False
+
+
+def opposite_overlap(occ):
+    """number of hops on which traffic of the two directions overlaps in time (allowed: one channel instance per direction)"""
+    cnt = 0
+    for (x, y), v in occ.items():
+        if x < y and (y, x) in occ:
+            w = occ[(y, x)]
+            if any(t1 > 0 and e1 <= e2 <= e1 + t1 for e1, t1 in v for e2, _ in w) or \
+               any(t2 > 0 and e2 <= e1 <= e2 + t2 for e1, _ in v for e2, t2 in w):
+                cnt += 1
+    return cnt
+
+
+def final_graph(script):
+    """the abstract gate graph / rules / sends a script builds (connect: reject self, duplicate, third peer)"""
+    hdr, ops = split(script)
+    own = owners_of(hdr); n = len(own)
+    G, rules, sends = Graph(n), {}, []
+    for o in ops:
+        gs = [o[1], o[2]] if o[0] in (1, 7, 9) else [o[1]]
+        if any(g >= n for g in gs):
+            continue
+        if o[0] in (1, 9):
+            a, b = o[1], o[2]
+            if a != b and b not in G.peers(a) and G.deg(a) < 2 and G.deg(b) < 2:
+                G.add(a, b, chan_of(o))
+        elif o[0] == 7:
+            rules.setdefault(o[1], (o[2], o[3]))
+        elif o[0] in (6, 8):
+            sends.append((o[1], o[2], o[3], min(o[4], 8) if o[0] == 8 else 0))
+    return G, own, rules, sends
 
 
 def monitor(script, out):
@@ -218,7 +305,7 @@ def monitor(script, out):
     sends = []
     rules = {}           # arrival gate -> (out gate, delay); first rule wins
     for o, r in recs:
-        gs = [o[1], o[2]] if o[0] in (1, 7) else [o[1]]
+        gs = [o[1], o[2]] if o[0] in (1, 7, 9) else [o[1]]
         if any(g >= n for g in gs):
             if r != [7]:
                 return "operation on an unknown gate answered %s" % r
@@ -230,9 +317,9 @@ def monitor(script, out):
                 return "rule record %s" % r
             rules.setdefault(o[1], (o[2], o[3]))
             continue
-        if o[0] == 1:
-            a, b, l = o[1], o[2], o[3]
-            lat = None if l == 0 else l - 1
+        if o[0] in (1, 9):
+            a, b = o[1], o[2]
+            lat = chan_of(o)
             if a == b:
                 if r != [9, 1]:
                     return "self-connect of g%d was not rejected: %s" % (a, r)
@@ -285,12 +372,12 @@ def monitor(script, out):
                     exp = [5, 0]
                 else:
                     exp = [5, 1, len(p)]
-                    for h, l in p:
-                        exp += [h, 0 if l is None else l + 1]
+                    for h, ch in p:
+                        exp += [h, 0 if ch is None else ch[0] + 1, 0 if ch is None else ch[1]]
                 if r != exp:
                     return "path_iter(g%d) = %s, expected %s" % (g, r, exp)
                 if p is not None:
-                    iters[(version, g)] = [r[3 + 2 * j] for j in range(r[2])]
+                    iters[(version, g)] = [r[3 + 3 * j] for j in range(r[2])]
     # mirror image, stated on the implementation's own enumerations
     for (v, g), p in iters.items():
         if p and (v, p[-1]) in iters:
@@ -304,9 +391,12 @@ def monitor(script, out):
         return None
     if extra:
         return "run failed or unexpected records in the delivery log: %s" % extra
+    if same_direction_overlap(traffic(G, own, rules, sends)):
+        # some message meets a busy channel: what happens then is C07's subject, C08 does not say
+        return None
     expected = set()
     for k, (g, t, d, b) in enumerate(sends):
-        for leg, gate, cur, when, res in itinerary(G, own, rules, g, t, d, b):
+        for leg, gate, cur, when, res, _ in itinerary(G, own, rules, g, t, d, b):
             expected.add((k, leg))
             what = "send #%d leg %d (m%d sends on g%d at %d)" % (k, leg, cur, gate, when)
             if res is None:
@@ -322,7 +412,7 @@ def monitor(script, out):
             to, arrive, far = res
             exp = [to, arrive, cur, to, far + 1]
             if got[0] != exp:
-                names = ["receiving module", "arrival time", "header.sender (the module that performed this send)",
+                names = ["receiving module", "arrival time (send + sum of tx + latency per hop)", "header.sender (the module that performed this send)",
                          "header.receiver", "last_gate+1"]
                 bad = [names[j] for j in range(5) if got[0][j] != exp[j]]
                 return "%s: %s wrong: got %s expected %s" % (what, ", ".join(bad), got[0], exp)
@@ -344,12 +434,12 @@ def mechanisms(script, out):
     conn_seq = []
     rules = {}
     for o in ops:
-        gs = [o[1], o[2]] if o[0] in (1, 7) else [o[1]]
+        gs = [o[1], o[2]] if o[0] in (1, 7, 9) else [o[1]]
         if any(g >= n for g in gs):
             m.add("unknown_gate"); continue
         if o[0] == 7:
             rules.setdefault(o[1], (o[2], o[3])); continue
-        if o[0] == 1:
+        if o[0] in (1, 9):
             a, b = o[1], o[2]
             if a == b:
                 m.add("self_connect")
@@ -377,6 +467,17 @@ def mechanisms(script, out):
         elif o[0] == 6:
             pass
     if poisoned: m.add("poisoned")
+    # hop channels with a bitrate: which hops carry traffic, and whether the two directions overlap in time
+    G, _, _, snds = final_graph(script)
+    if not poisoned:
+        occ = traffic(G, own, rules, snds)
+        for (x, y), v in occ.items():
+            ch = dict(G.adj[x]).get(y)
+            if ch and ch[1]:
+                m.add("hop_with_bitrate")
+                if ch[0] == 0: m.add("zero_latency_bitrate_hop")
+        if opposite_overlap(occ): m.add("simultaneous_opposite_directions")
+        if same_direction_overlap(occ): m.add("same_direction_overlap_out_of_scope")
     ends = {}
     for o in ops:
         if o[0] not in (6, 8) or o[1] >= n: continue
@@ -468,7 +569,7 @@ def rand_time(rng):
     return rng.choice([1000, 2500000, 10 ** 9, rng.randint(1, 10 ** 10)])
 
 
-def gen_script(rng, malformed=False, relays=False):
+def gen_script(rng, malformed=False, relays=False, bitrates=False):
     nmod = rng.randint(1, 6)
     nchains = rng.choice([1, 1, 1, 2, 2, 3, 4])
     hops = []
@@ -494,7 +595,13 @@ def gen_script(rng, malformed=False, relays=False):
         chan_p = rng.choice([0.0, 0.3, 0.5, 0.8, 1.0])
         for x, y in zip(c, c[1:]):
             l = 0 if rng.random() >= chan_p else rand_lat(rng) + 1
-            conns.append([1, x, y, l] if rng.random() < 0.5 else [1, y, x, l])
+            if bitrates and (l or rng.random() < 0.5) and rng.random() < 0.7:
+                # a hop with a bitrate: delay = tx(72 bytes) + latency; latency 0 in 40 %
+                br = rng.choice(BITRATES) if rng.random() < 0.93 else rng.choice([7, 11 * 10 ** 8])
+                l = 1 if rng.random() < 0.4 else max(l, 1)
+                conns.append([9, x, y, l, br] if rng.random() < 0.5 else [9, y, x, l, br])
+            else:
+                conns.append([1, x, y, l] if rng.random() < 0.5 else [1, y, x, l])
     mode = rng.random()
     if mode < 0.75:
         rng.shuffle(conns)
@@ -507,7 +614,7 @@ def gen_script(rng, malformed=False, relays=False):
         r = rng.random()
         if r < 0.12:                                   # duplicate, either orientation, possibly another channel
             d = rng.choice(done)
-            ops.append([1, d[2], d[1], rng.choice([0, d[3], 5])] if rng.random() < 0.5 else [1, d[1], d[2], rng.choice([0, d[3]])])
+            ops.append([1, d[2], d[1], rng.choice([0, d[3], 5])] if rng.random() < 0.5 else d[:3] + [rng.choice([0, d[3]])] + d[4:])
         elif r < 0.30:
             ops.append([rng.choice([2, 2, 3, 4, 5]), rng.choice(c[1:3])])
         if malformed and rng.random() < 0.25:
@@ -574,7 +681,49 @@ def gen_script(rng, malformed=False, relays=False):
             ops = rops + ops + sops
     if rng.random() < 0.15:
         rng.shuffle(ops)                               # queries/sends interleaved with the construction
-    return join([nmod, len(grp)] + grp, ops)
+    script = join([nmod, len(grp)] + grp, ops)
+    if bitrates:
+        script = space_out(script)
+    return script
+
+
+def space_out(script):
+    """Keep the traffic of ONE direction of every hop non-overlapping in time (no message may meet a busy channel:
+    that is C07's subject), while simultaneous sends from the two ends of a chain stay simultaneous."""
+    hdr, ops = split(script)
+    G, own, rules, sends = final_graph(script)
+    if not same_direction_overlap(traffic(G, own, rules, sends)):
+        return script
+    dur = 0
+    for (g, t, d, b) in sends:
+        it = itinerary(G, own, rules, g, t, d, b)
+        last = max([r[4][1] for r in it if r[4]] + [r[3] for r in it])
+        dur = max(dur, last - t)
+    gap = dur + 10
+    base, prev = 0, None
+    for o in ops:
+        if o[0] not in (6, 8):
+            continue
+        pair = prev is not None and prev[1] != o[1] and prev[2] == o[2] and \
+            o[1] < len(own) and prev[1] < len(own) and G.deg(o[1]) == 1 and G.deg(prev[1]) == 1 and \
+            (G.path(prev[1]) or [(None, None)])[-1][0] == o[1]
+        prev = list(o)
+        if not pair:
+            base += gap
+        o[2] = base
+    for attempt in range(3):
+        cand = join(hdr, ops)
+        G, own, rules, sends = final_graph(cand)
+        if not same_direction_overlap(traffic(G, own, rules, sends)):
+            return cand
+        if attempt == 0:
+            for o in ops:                               # relays make the two directions chase each other: no relays
+                if o[0] == 8: o[4] = 0
+        else:
+            ops = [o[:4] if o[0] == 9 else o for o in ops]
+            for o in ops:
+                if len(o) == 4 and o[0] == 9: o[0] = 1
+    return join(hdr, ops)
 
 
 def gen(rng, n):
@@ -584,30 +733,34 @@ def gen(rng, n):
         if k >= n // 4: break
         yield s; k += 1
     while k < n:
-        yield gen_script(rng, malformed=(rng.random() < 0.15), relays=(rng.random() < 0.3)); k += 1
+        yield gen_script(rng, malformed=(rng.random() < 0.15), relays=(rng.random() < 0.3), bitrates=(rng.random() < 0.3)); k += 1
 
 
 def exhaustive(maxhops=5):
     """every permutation x orientation of the connect calls that build one chain of <= maxhops hops,
-    gates spread over 3 modules, channels with distinguishable latencies on alternate hops"""
+    gates spread over 3 modules; even hops: latency 10^i and 576 Gbit/s (tx 1 ns), hop 1: latency 0 and
+    288 Gbit/s (tx 2 ns), other odd hops: no channel; sends from both ends at the same instant, later ones
+    spaced so that no message meets a busy channel"""
     for k in range(1, maxhops + 1):
         n = k + 1
         grp = []
         for i in range(n):
             grp += [i % 3, 1]
-        hops = [(i, i + 1, (0 if i % 2 else 10 ** i + 1)) for i in range(k)]
+        hops = [(i, i + 1) + ((10 ** i + 1, 576 * 10 ** 9) if i % 2 == 0 else (1, 288 * 10 ** 9) if i == 1 else (0, 0)) for i in range(k)]
+        T = 10 ** 6
         for perm in itertools.permutations(range(k)):
             for mask in range(1 << k):
                 ops = []
                 for j in perm:
-                    a, b, l = hops[j]
-                    ops.append([1, b, a, l] if (mask >> j) & 1 else [1, a, b, l])
+                    a, b, l, br = hops[j]
+                    if (mask >> j) & 1: a, b = b, a
+                    ops.append([9, a, b, l, br] if br else [1, a, b, l])
                 for g in range(n):
                     ops.append([2, g])
                 for g in (0, k):
                     ops += [[5, g], [3, g], [4, g]]
                 if k > 1:
                     ops.append([5, 1])
-                ops += [[6, 0, 3, 0], [6, k, 3, 0], [6, 0, 0, 2], [6, k, 4, 2],
-                        [7, k, k, 0], [7, 0, 0, 1], [8, 0, 1, 0, 2], [8, k, 0, 5, 1]]
+                ops += [[6, 0, 3, 0], [6, k, 3, 0], [6, 0, T, 2], [6, k, 2 * T, 2],
+                        [7, k, k, 0], [7, 0, 0, 1], [8, 0, 3 * T, 0, 2], [8, k, 4 * T, 5, 1]]
                 yield join([3, len(grp)] + grp, ops)
